@@ -9,6 +9,8 @@ NoTimes == {}
 OneName == {"a"}
 \* names one of which is a string prefix of the other: "a" vs "ab" (element boundaries, not string prefixes, decide)
 PNames == {"a", "ab"}
+\* a name that starts with a dot (valid, like any other)
+DNames == {".a", "a"}
 TTimes == {"T1", "T2"}
 OneData == { <<1>> }
 ==========================================================================
